@@ -1,0 +1,201 @@
+//go:build verif
+
+package server
+
+// Hooks of the query-area check (property C02, Model/AreaParse.v): the two
+// parsers that turn area tokens into a geojson object — cmdSearchArgs
+// (WITHIN / INTERSECTS / NEARBY) and parseArea / parseAreaExpression / cmdTEST
+// (TEST) — run on a private Server value. Nothing here touches a running server.
+
+import (
+	"fmt"
+	"math"
+	"strings"
+
+	"github.com/tidwall/btree"
+	"github.com/tidwall/geojson"
+	"github.com/tidwall/geojson/geometry"
+	"github.com/tidwall/tile38/internal/collection"
+	"github.com/tidwall/tile38/internal/field"
+	"github.com/tidwall/tile38/internal/object"
+)
+
+// VerifAreaEnv is a Server with the parse / index options of a default server
+// and a keyspace for GET.
+type VerifAreaEnv struct{ s *Server }
+
+func VerifNewAreaEnv() *VerifAreaEnv {
+	s := &Server{cols: &btree.Map[string, *collection.Collection]{}}
+	s.geomParseOpts = *geojson.DefaultParseOptions
+	s.geomIndexOpts = *geometry.DefaultIndexOptions
+	return &VerifAreaEnv{s: s}
+}
+
+// ParseOpts / IndexOpts: what the parsers pass to geojson.Parse and clip.Clip.
+func (e *VerifAreaEnv) ParseOpts() *geojson.ParseOptions  { return &e.s.geomParseOpts }
+func (e *VerifAreaEnv) IndexOpts() *geometry.IndexOptions { return &e.s.geomIndexOpts }
+
+// Set stores an object under key / id.
+func (e *VerifAreaEnv) Set(key, id string, o geojson.Object) {
+	col, _ := e.s.cols.Get(key)
+	if col == nil {
+		col = collection.New()
+		e.s.cols.Set(key, col)
+	}
+	col.Set(object.New(id, o, 0, field.List{}))
+}
+
+// SetString stores a string value (SET key id STRING value).
+func (e *VerifAreaEnv) SetString(key, id, value string) { e.Set(key, id, collection.String(value)) }
+
+// Lookup is what the GET arm of both parsers does: 0 key missing, 1 id
+// missing, 2 found (with the stored object).
+func (e *VerifAreaEnv) Lookup(key, id string) (int, geojson.Object) {
+	col, _ := e.s.cols.Get(key)
+	if col == nil {
+		return 0, nil
+	}
+	o := col.Get(id)
+	if o == nil {
+		return 1, nil
+	}
+	return 2, o.Geo()
+}
+
+// VerifAreaDescribe is a canonical description of a constructed object: type
+// and IEEE bit patterns for the three simple kinds, the JSON text otherwise.
+func VerifAreaDescribe(o geojson.Object) string {
+	b := func(f float64) uint64 { return math.Float64bits(f) }
+	switch v := o.(type) {
+	case nil:
+		return "nil"
+	case *geojson.Rect:
+		r := v.Base()
+		return fmt.Sprintf("rect:%d:%d:%d:%d", b(r.Min.X), b(r.Min.Y), b(r.Max.X), b(r.Max.Y))
+	case *geojson.Circle:
+		c := v.Center()
+		return fmt.Sprintf("circle:%d:%d:%d", b(c.X), b(c.Y), b(v.Meters()))
+	case *geojson.Point:
+		p := v.Base()
+		return fmt.Sprintf("point:%d:%d", b(p.X), b(p.Y))
+	}
+	return "json:" + o.JSON()
+}
+
+// VerifSearchAreaResult is what cmdSearchArgs left in liveFenceSwitches.
+type VerifSearchAreaResult struct {
+	Err        string // error text, "" when accepted
+	Panic      string
+	Obj        geojson.Object
+	OutReset   bool // outb was set and lfs.output is the default again
+	TileX      int
+	TileY      int
+	TileZ      int
+	Mvt        bool
+	Clip       bool
+	Fence      bool
+	RoamOn     bool
+	RoamKey    string
+	RoamID     string
+	RoamMeters float64
+	RoamScan   string
+}
+
+// SearchArea runs cmdSearchArgs(false, cmd, "k" [FENCE] [CLIP] IDS|BOUNDS area...)
+// — the output word in front of the area tokens ends the option loop of
+// parseSearchScanBaseTokens, so the area tokens reach the type switch as given;
+// outb selects BOUNDS as that word (`lfs.output == outputBounds`).
+func (e *VerifAreaEnv) SearchArea(cmd string, fence, clip, outb bool, area []string) (res VerifSearchAreaResult) {
+	defer func() {
+		if r := recover(); r != nil {
+			res = VerifSearchAreaResult{Panic: fmt.Sprint(r)}
+		}
+	}()
+	var types map[string]bool
+	switch cmd {
+	case "nearby":
+		types = nearbyTypes
+	case "within", "intersects":
+		types = withinOrIntersectsTypes
+	default:
+		return VerifSearchAreaResult{Panic: "not a search command"}
+	}
+	vs := []string{"k"}
+	if fence {
+		vs = append(vs, "FENCE")
+	}
+	if clip {
+		vs = append(vs, "CLIP")
+	}
+	if outb {
+		vs = append(vs, "BOUNDS")
+	} else {
+		vs = append(vs, "IDS")
+	}
+	vs = append(vs, area...)
+	lfs, err := e.s.cmdSearchArgs(false, cmd, vs, types)
+	if err != nil {
+		res.Err = err.Error()
+		return
+	}
+	res.Obj = lfs.obj
+	res.OutReset = outb && lfs.output == defaultSearchOutput
+	res.TileX, res.TileY, res.TileZ = lfs.tileX, lfs.tileY, lfs.tileZ
+	res.Mvt, res.Clip, res.Fence = lfs.mvt, lfs.clip, lfs.fence
+	res.RoamOn, res.RoamKey, res.RoamID = lfs.roam.on, lfs.roam.key, lfs.roam.id
+	res.RoamMeters, res.RoamScan = lfs.roam.meters, lfs.roam.scan
+	return
+}
+
+// ParseArea runs test.go parseArea.
+func (e *VerifAreaEnv) ParseArea(doClip bool, vs []string) (rest int, o geojson.Object, errText, panicText string) {
+	defer func() {
+		if r := recover(); r != nil {
+			rest, o, errText, panicText = 0, nil, "", fmt.Sprint(r)
+		}
+	}()
+	nvs, obj, err := e.s.parseArea(vs, doClip)
+	if err != nil {
+		return 0, nil, err.Error(), ""
+	}
+	return len(nvs), obj, "", ""
+}
+
+// TestTail runs cmdTEST on TEST <area1> <lTest> vs... (area1 = POINT 0 0, or
+// the object-less expression POINT 0 0 OR POINT 1 1 when a1nil) for the verdict
+// and the error text, and — when cmdTEST accepted — parseAreaExpression on the
+// same tokens (after the CLIP word cmdTEST strips) for the object of area2.
+// shape: "leaf" (one object, not negated), otherwise "expr".
+func (e *VerifAreaEnv) TestTail(lTest string, a1nil bool, vs []string) (
+	doClip bool, o geojson.Object, shape, errText, panicText string,
+) {
+	defer func() {
+		if r := recover(); r != nil {
+			doClip, o, shape, errText, panicText = false, nil, "", "", fmt.Sprint(r)
+		}
+	}()
+	args := []string{"test", "POINT", "0", "0"}
+	if a1nil {
+		args = append(args, "OR", "POINT", "1", "1")
+	}
+	args = append(args, lTest)
+	args = append(args, vs...)
+	_, err := e.s.cmdTEST(&Message{Args: args, OutputType: RESP})
+	if err != nil {
+		return false, nil, "", err.Error(), ""
+	}
+	if len(vs) > 0 && strings.ToLower(vs[0]) == "clip" {
+		doClip = true
+		vs = vs[1:]
+	}
+	_, ae, err := e.s.parseAreaExpression(vs, doClip)
+	if err != nil {
+		return doClip, nil, "", "", "parseAreaExpression failed after cmdTEST accepted: " + err.Error()
+	}
+	shape = "expr"
+	if ae != nil && ae.obj != nil && !ae.negate && ae.op == NOOP {
+		shape = "leaf"
+		o = ae.obj
+	}
+	return
+}
